@@ -1068,6 +1068,119 @@ def _retarget_exact(t, frm, to):
     _retarget(t, frm, to)
 
 
+# ---------------------------------------------------------------------------------------------------------------------
+# one spelling for fixed-width integer I/O on byte slices: std's to_le_bytes / from_le_bytes idioms read as byteorder calls
+
+def _bo_call(endian, name, args, t):
+    full = "<byteorder::%s as byteorder::ByteOrder>::%s" % (endian, name)
+    return dict(t, callee="byteorder::ByteOrder::" + name, callee_full=full, callee_crate="byteorder", callee_local=False, targs=["byteorder::" + endian],
+                resolved=full, resolved_kind="item", trait_unresolved=False, trait="byteorder::ByteOrder", args=args, canonicalised=True)
+
+
+def _follow_to_local(body, l, kinds, depth=0):
+    """through single-definition copies / references / unsizing casts to the local they denote"""
+    for _k in range(8):
+        ds, cs = _single_assign(body, l)
+        if len(ds) != 1 or cs:
+            return l
+        rv = ds[0][1]["rv"]
+        if rv["k"] == "Cast" and rv["op"].get("k") in ("move", "copy") and not rv["op"]["p"]["proj"]:
+            l = rv["op"]["p"]["l"]
+        elif rv["k"] == "Use" and rv["op"].get("k") in ("move", "copy") and not rv["op"]["p"]["proj"]:
+            l = rv["op"]["p"]["l"]
+        elif rv["k"] == "Ref" and rv["p"]["proj"] in ([], [["deref"]]):
+            l = rv["p"]["l"]
+        else:
+            return l
+    return l
+
+
+def canonical_byteorder(raw):
+    """`dst.copy_from_slice(&v.to_le_bytes())` is LittleEndian::write_uN(dst, v); `uN::from_le_bytes([s[0], .., s[N-1]])` and
+    `uN::from_le_bytes(s.try_into().unwrap())` are LittleEndian::read_uN(s) (same for _be_).  The rules are written against
+    the byteorder spelling the crate uses; a port to the std methods changes no byte."""
+    n = 0
+    W = {"u16": 2, "u32": 4, "u64": 8}
+    import json as _json, os as _os
+    users = set(_json.load(open(_os.path.join(_os.path.dirname(_os.path.dirname(_os.path.abspath(__file__))), "spec", "known_functions.json"))).get("byteorder_users", []))
+    for body in raw["bodies"]:
+        # only where the tree the rules were written against uses byteorder (the FSInfo code there uses the std spelling, and
+        # its rules read that)
+        if strip_generics(body["path"]).split("::{closure")[0] not in users:
+            continue
+        B = body["blocks"]
+        for bi, blk in enumerate(B):
+            t = blk["term"]
+            if t["k"] != "Call" or not t.get("callee"):
+                continue
+            nm = strip_generics(t["callee"])
+            if nm.endswith("copy_from_slice") and len(t["args"]) == 2 and t["args"][1].get("k") in ("move", "copy") and not t["args"][1]["p"]["proj"]:
+                a = _follow_to_local(body, t["args"][1]["p"]["l"], None)
+                ds, cs = _single_assign(body, a)
+                if not ds and len(cs) == 1:
+                    ct = cs[0][1]
+                    cn = strip_generics(ct.get("callee") or "")
+                    for suf, endian in (("to_le_bytes", "LittleEndian"), ("to_be_bytes", "BigEndian")):
+                        if cn.endswith("::" + suf) and "num" in cn and len(ct["args"]) == 1:
+                            ty = [k for k in W if "impl %s>" % k in (ct.get("callee_full") or ct["callee"])]
+                            if ty and ct["args"][0].get("k") in ("move", "copy", "const"):
+                                v = copy.deepcopy(ct["args"][0])
+                                if v.get("k") == "move":
+                                    v["k"] = "copy"
+                                blk["term"] = _bo_call(endian, "write_" + ty[0], [t["args"][0], v], t)
+                                n += 1
+            elif nm.endswith(("::from_le_bytes", "::from_be_bytes")) and "num" in nm and len(t["args"]) == 1 and t["args"][0].get("k") in ("move", "copy") and not t["args"][0]["p"]["proj"]:
+                endian = "LittleEndian" if nm.endswith("from_le_bytes") else "BigEndian"
+                ty = [k for k in W if "impl %s>" % k in (t.get("callee_full") or t["callee"])]
+                if not ty:
+                    continue
+                arr = t["args"][0]["p"]["l"]
+                ds, cs = _single_assign(body, arr)
+                for _k in range(4):         # through plain copies of the byte array
+                    if len(ds) == 1 and not cs and ds[0][1]["rv"]["k"] == "Use" and ds[0][1]["rv"]["op"].get("k") in ("move", "copy") and not ds[0][1]["rv"]["op"]["p"]["proj"]:
+                        arr = ds[0][1]["rv"]["op"]["p"]["l"]
+                        ds, cs = _single_assign(body, arr)
+                    else:
+                        break
+                src = None
+                if len(ds) == 1 and not cs and ds[0][1]["rv"]["k"] == "Aggregate" and ds[0][1]["rv"]["agg"] == "Array" and len(ds[0][1]["rv"]["ops"]) == W[ty[0]]:
+                    bases = []
+                    for k_, o in enumerate(ds[0][1]["rv"]["ops"]):
+                        if o.get("k") not in ("move", "copy") or o["p"]["proj"]:
+                            bases = None
+                            break
+                        es, ec = _single_assign(body, o["p"]["l"])
+                        if len(es) != 1 or ec or es[0][1]["rv"]["k"] != "Use" or es[0][1]["rv"]["op"].get("k") not in ("move", "copy"):
+                            bases = None
+                            break
+                        pl = es[0][1]["rv"]["op"]["p"]
+                        pj = pl["proj"]
+                        if len(pj) == 2 and pj[0] == ["deref"] and pj[1][0] == "index":
+                            ids, ic = _single_assign(body, pj[1][1])
+                            okc = len(ids) == 1 and not ic and ids[0][1]["rv"]["k"] == "Use" and ids[0][1]["rv"]["op"].get("k") == "const" and ids[0][1]["rv"]["op"].get("val") == k_
+                        elif len(pj) == 2 and pj[0] == ["deref"] and pj[1][0] == "cidx" and pj[1][1] == k_ and not pj[1][3]:
+                            okc = True
+                        else:
+                            okc = False
+                        if not okc:
+                            bases = None
+                            break
+                        bases.append(pl["l"])
+                    if bases and len(set(bases)) == 1:
+                        src = {"k": "copy", "p": _place(bases[0])}
+                elif not ds and len(cs) == 1 and strip_generics(cs[0][1].get("callee") or "").split("::")[-1] in ("unwrap", "expect") and cs[0][1]["args"] and cs[0][1]["args"][0].get("k") in ("move", "copy"):
+                    r = cs[0][1]["args"][0]["p"]["l"]
+                    rd, rc = _single_assign(body, r)
+                    if not rd and len(rc) == 1 and strip_generics(rc[0][1].get("callee") or "").split("::")[-1] in ("try_into", "try_from") and rc[0][1]["args"] and rc[0][1]["args"][0].get("k") in ("move", "copy"):
+                        src = copy.deepcopy(rc[0][1]["args"][0])
+                        src["k"] = "copy"
+                if src is not None:
+                    blk["term"] = _bo_call(endian, "read_" + ty[0], [src], t)
+                    n += 1
+    raw["_byteorder_canon"] = n
+    return n
+
+
 def _clo_key(ty):
     if "{closure@" not in ty:
         return None
@@ -1113,6 +1226,7 @@ def lower_adaptors(raw):
     raw["_lowered"] = True
     raw["_lowered_sites"] = n
     inline_helpers(raw)
+    canonical_byteorder(raw)
     thread_helper_results(raw)
     unroll_small_loops(raw)
     split_tuple_locals(raw)
